@@ -251,9 +251,17 @@ EXTRA8 = {'C02': ' Traits may be re-added on the instance before the history.',
           'C10': ' Stage solo (metamorphic): what an instance of a class with dynamic Range / Enum / method defaults observes in a history interleaved with other instances equals what it observes alone; a default method runs only while nothing is stored, also after a first read that failed late.',
           'C11': " One-character 'p*' prefixes; the link attribute may itself be deferred to a holder object.",
           'C12': ' Batches whose later element is refused; a self-removing notifier ahead of the property observers.'}
+EXTRA9 = {'C08': ' A refused quiet assignment must leave every hook alive.',
+          'C13': ' Undeclared names with one trailing underscore.',
+          'C14': ' Images report traits_inited() and keep a UUID(can_init=True) write-once; an object whose every trait is transient comes back with live observers and property caches.',
+          'C16': ' Link values replaced by equal but distinct objects; a final segment selected by metadata (+lvl, falsy values).',
+          'C19': ' Method forms of the set / list / dict updates; a new (also mutual) synchronisation whose initial copy fails; the sync records are part of the compared state.',
+          'C20': ' Non-list one-way partners (taps) of the list traits, attached before or after the list partners.'}
 
 
 def main():
+    for pid, extra in EXTRA9.items():
+        EXTRA8[pid] = EXTRA8.get(pid, "") + extra
     for pid, extra in EXTRA8.items():
         EXTRA7[pid] = EXTRA7.get(pid, "") + extra
     for pid, extra in EXTRA7.items():
